@@ -23,7 +23,8 @@ CONSTANTS MaxSeq
 
 Entries == {"Trace","Tracef","Debug","Debugf","Info","Infof","Warn","Warnf","Error","Errorf",
             "Panic","Panicf","Fatal","Fatalf","Record"}
-Shapes  == {"plain","closure","deferred","goroutine","methodvalue","generic","inlinable"}
+Shapes  == {"plain","closure","deferred","goroutine","methodvalue","generic","inlinable",
+            "farline"}     \* a call site whose source line number exceeds 65535
 Modes   == {"default","fast"}
 
 \* frames are numbered by their distance from the logging entry point:
@@ -53,7 +54,8 @@ VARIABLES mode, enable, calls, cache, seen
 vars == <<mode, enable, calls, cache, seen>>
 
 Sites == [entry : Entries, shape : Shapes, skip : 1..MaxSkip]
-ValidSite(s) == (s.entry = "Record" \/ s.skip = 1) /\ (s.skip = 1 \/ s.shape = "plain")
+ValidSite(s) == /\ (s.entry = "Record" \/ s.skip = 1) /\ (s.skip = 1 \/ s.shape = "plain")
+                /\ (s.shape = "farline" => s.entry \in {"Info", "Debugf"})
 
 Others == { [entry |-> "Info", shape |-> "plain", skip |-> 1],
             [entry |-> "Record", shape |-> "plain", skip |-> 2] }
